@@ -1,6 +1,7 @@
 package main
 
 import (
+	"bytes"
 	"fmt"
 	"math"
 	"math/rand/v2"
@@ -14,8 +15,48 @@ import (
 
 // ---------- strings ----------
 
+// longSpec describes a long string compactly: Len bytes equal to Fill, overwritten at the
+// front by Head.  (The string codec is length prefix + bytes, so lengths matter, not contents.)
+type longSpec struct {
+	Len  int    `json:"len"`
+	Fill byte   `json:"fill"`
+	Head string `json:"head,omitempty"`
+}
+
+func (s longSpec) expand() []byte {
+	b := bytes.Repeat([]byte{s.Fill}, s.Len)
+	copy(b, s.Head)
+	return b
+}
+func expandAll(l []longSpec) [][]byte {
+	o := make([][]byte, len(l))
+	for i, s := range l {
+		o[i] = s.expand()
+	}
+	return o
+}
+func eqStrs(a, b [][]byte) bool {
+	if len(a) != len(b) {
+		return false
+	}
+	for i := range a {
+		if !bytes.Equal(a[i], b[i]) {
+			return false
+		}
+	}
+	return true
+}
+func lensOf(v [][]byte) []int {
+	o := make([]int, len(v))
+	for i, s := range v {
+		o[i] = len(s)
+	}
+	return o
+}
+
 type strCase struct {
-	Vals [][]byte `json:"vals"` // each string as bytes (JSON: base64)
+	Vals [][]byte   `json:"vals,omitempty"`         // each string as bytes (JSON: base64)
+	Long []longSpec `json:"long_strings,omitempty"` // used instead of Vals for the long-string stream
 	// header byte + snappy-DECOMPRESSED payload of each encoder's output
 	SP, BP                     []byte                 `json:"-"`
 	SPOK, BPOK                 bool                   `json:"-"`
@@ -88,6 +129,10 @@ func payloadOf(w *vh.W, idx int, b []byte, what string) ([]byte, bool) {
 func runStr(w *vh.W, c *jcase) {
 	s := c.Str
 	idx := w.Len()
+	long := len(s.Long) > 0
+	if long {
+		s.Vals = expandAll(s.Long)
+	}
 	limit := len(s.Vals) + 1000
 	p := vh.Guard(func() {
 		enc := tsm1.NewStringEncoder(64)
@@ -128,8 +173,10 @@ func runStr(w *vh.W, c *jcase) {
 	put := func(k string, v [][]byte, ok bool) {
 		if !ok {
 			s.Decoded[k] = "error"
-		} else if fmt.Sprint(v) == fmt.Sprint(s.Vals) {
+		} else if eqStrs(v, s.Vals) {
 			s.Decoded[k] = "== vals"
+		} else if long {
+			s.Decoded[k] = map[string]interface{}{"lengths": lensOf(v)}
 		} else {
 			s.Decoded[k] = v
 		}
@@ -144,6 +191,22 @@ func runStr(w *vh.W, c *jcase) {
 	w.Add(t, c, len(s.Vals) >= 2, "")
 	w.Count("kind", "str")
 	w.Count("str.count", lenClass(len(s.Vals)))
+	n16k, nshort := 0, 0
+	for _, v := range s.Vals {
+		if len(v) >= 16384 {
+			n16k++
+		}
+		if len(v) < 128 {
+			nshort++
+		}
+	}
+	if n16k > 0 {
+		w.Count("str.ge16KiB_minus_lt128B", fmt.Sprint(n16k-nshort))
+	}
+	if long { // keep cases.jsonl / evidence small: the spec regenerates the strings
+		s.Decoded["scalar_bytes_len"], s.Decoded["batch_bytes_len"] = len(s.SB), len(s.BB)
+		s.Vals, s.SB, s.BB = nil, nil, nil
+	}
 }
 
 func genString(r *rand.Rand) []byte {
@@ -193,6 +256,76 @@ func fixedStr() []jcase {
 		mk(strings.Repeat("ab", 200), "", "\x00", "\x80\xff"), mk("\x00"), mk("\x00", "\x00\x00"), mk("héllo", "wörld", "héllo")}
 }
 
+// ---- the long-string stream: 1-6 strings with lengths around the uvarint boundaries
+// (127/128, 16383/16384) and 40-64 KiB, mixed with a few short ones ----
+var longLens = []int{126, 127, 128, 129, 16382, 16383, 16384, 16385, 20000, 40960, 50000, 65535, 65536}
+
+func genLongSpecs(r *rand.Rand) []longSpec {
+	k := 1 + r.IntN(6)
+	nShort := 0
+	if r.IntN(2) == 0 {
+		nShort = r.IntN(3)
+	}
+	minLen := 0
+	if r.IntN(2) == 0 {
+		minLen = 4 // only lengths >= 16382: every string needs (almost always) a 3-byte prefix
+	}
+	out := make([]longSpec, 0, k+nShort)
+	total := 0
+	for i := 0; i < k; i++ {
+		n := longLens[minLen+r.IntN(len(longLens)-minLen)]
+		if total+n > 200000 { // keep the Coq side affordable
+			n = 16384 - r.IntN(2)
+		}
+		total += n
+		out = append(out, longSpec{Len: n, Fill: byte('a' + r.IntN(26)), Head: fmt.Sprintf("%d:", i)})
+	}
+	for i := 0; i < nShort; i++ {
+		sp := longSpec{Len: r.IntN(128), Fill: byte('A' + r.IntN(26))}
+		at := r.IntN(len(out) + 1)
+		out = append(out[:at], append([]longSpec{sp}, out[at:]...)...)
+	}
+	return out
+}
+
+func fixedLongSpecs() [][]longSpec {
+	mk := func(lens ...int) []longSpec {
+		o := make([]longSpec, len(lens))
+		for i, n := range lens {
+			o[i] = longSpec{Len: n, Fill: byte('p' + i), Head: fmt.Sprintf("%d:", i)}
+		}
+		return o
+	}
+	return [][]longSpec{
+		mk(16384, 16384, 16384), mk(16383, 16383, 16383), mk(16384, 16384, 16384, 16384, 5),
+		mk(65536, 40960, 16384), mk(127, 128, 16383, 16384, 65535),
+	}
+}
+
+func fixedLongStr() []jcase {
+	var cs []jcase
+	for _, sp := range fixedLongSpecs() {
+		cs = append(cs, jcase{Kind: "str", Str: &strCase{Long: sp}})
+	}
+	// the same shapes through the block encoders / DecodeBlock / DecodeStringArrayBlock
+	for _, sp := range []([]longSpec){fixedLongSpecs()[0], fixedLongSpecs()[3]} {
+		b := &blkCase{Typ: tsm1.BlockString, LongStrs: sp}
+		for i := range sp {
+			b.TS = append(b.TS, uint64(1000*(i+1)))
+		}
+		cs = append(cs, jcase{Kind: "block", Blk: b})
+	}
+	return cs
+}
+
+func genLongStr(r *rand.Rand) jcase {
+	sp := genLongSpecs(r)
+	if r.IntN(3) == 0 {
+		return jcase{Kind: "block", Blk: &blkCase{Typ: tsm1.BlockString, LongStrs: sp, TS: genTimeVals(r, len(sp))}}
+	}
+	return jcase{Kind: "str", Str: &strCase{Long: sp}}
+}
+
 func genStr(r *rand.Rand) jcase {
 	n := r.IntN(12)
 	if r.IntN(10) == 0 {
@@ -208,6 +341,8 @@ type blkCase struct {
 	TS   []uint64 `json:"timestamps"`
 	Nums []uint64 `json:"values,omitempty"` // float bits / int64 bits / uint64 / 0,1
 	Strs [][]byte `json:"strings,omitempty"`
+	// long-string blocks: Strs is regenerated from the specs
+	LongStrs []longSpec `json:"long_strings,omitempty"`
 	// standalone encoder outputs and the block encoders' outputs
 	STB, SVB, BTB, BVB []byte                 `json:"-"`
 	SBlk, BBlk         []byte                 `json:"-"`
@@ -315,6 +450,10 @@ func decodeBatchBlock(typ byte, blk []byte) (d decoded) {
 func runBlock(w *vh.W, c *jcase) {
 	s := c.Blk
 	idx := w.Len()
+	long := len(s.LongStrs) > 0
+	if long {
+		s.Strs = expandAll(s.LongStrs)
+	}
 	var dss, dbs, dsb, dbb decoded
 	p := vh.Guard(func() {
 		// standalone encoders (the pieces the block encoders are expected to frame)
@@ -413,12 +552,21 @@ func runBlock(w *vh.W, c *jcase) {
 		if !d.ok {
 			return "error"
 		}
-		if fmt.Sprint(d.ts) == fmt.Sprint(s.TS) && fmt.Sprint(d.nums) == fmt.Sprint(append([]uint64{}, s.Nums...)) && fmt.Sprint(d.strs) == fmt.Sprint(append([][]byte{}, s.Strs...)) {
+		if fmt.Sprint(d.ts) == fmt.Sprint(s.TS) && fmt.Sprint(d.nums) == fmt.Sprint(append([]uint64{}, s.Nums...)) && eqStrs(d.strs, s.Strs) {
 			return "== input"
+		}
+		if long {
+			return fmt.Sprint(d.ts, " string lengths ", lensOf(d.strs))
 		}
 		return fmt.Sprint(d.ts, d.nums, d.strs)
 	}
-	s.Summary = map[string]interface{}{"scalar_block_ok": s.SBlkOK, "batch_block_ok": s.BBlkOK, "scalar_block": s.SBlk, "batch_block": s.BBlk,
+	capped := func(b []byte) interface{} {
+		if len(b) > 2048 {
+			return fmt.Sprintf("%d bytes", len(b))
+		}
+		return b
+	}
+	s.Summary = map[string]interface{}{"scalar_block_ok": s.SBlkOK, "batch_block_ok": s.BBlkOK, "scalar_block": capped(s.SBlk), "batch_block": capped(s.BBlk),
 		"scalar_dec(scalar_blk)": sum(dss), "batch_dec(scalar_blk)": sum(dbs), "scalar_dec(batch_blk)": sum(dsb), "batch_dec(batch_blk)": sum(dbb)}
 	var t string
 	if isStr {
@@ -431,6 +579,10 @@ func runBlock(w *vh.W, c *jcase) {
 			l.optBytes(s.SBlk, s.SBlkOK), l.optBytes(s.BBlk, s.BBlkOK), dec(dss), dec(dbs), dec(dsb), dec(dbb))
 	}
 	w.Add(l.wrap(t), c, len(s.TS) >= 2, "")
+	if long {
+		w.Count("block.long_strings", fmt.Sprint(len(s.Strs)))
+		s.Strs = nil
+	}
 	w.Count("kind", "block")
 	w.Count("block.type", fmt.Sprint(s.Typ))
 	w.Count("block.len", lenClass(len(s.TS)))
